@@ -278,8 +278,8 @@ def run_mutant(prop, m, tier='quick', keep=False):
     out = p.stdout.decode()
     viol = [l for l in out.splitlines() if l.startswith('VIOLATION')]
     classes = [l.strip() for l in out.splitlines() if l.strip().startswith('class=')]
-    status = 'killed' if p.returncode == 1 and viol else ('harness-error' if p.returncode == 2 else 'survived')
-    res = dict(id=m['id'], status=status, exit=p.returncode, classes=[c[:160] for c in classes[:4]], wall=round(time.time() - t0, 1), tail=out.splitlines()[-1:] if status != 'killed' else [])
+    status = 'killed' if p.returncode in (1, 2) and viol else ('harness-error' if p.returncode == 2 else 'survived')
+    res = dict(id=m['id'], status=status, exit=p.returncode, also_harness_errors=(p.returncode == 2), classes=[c[:160] for c in classes[:4]], wall=round(time.time() - t0, 1), tail=out.splitlines()[-1:] if status != 'killed' else [])
     if status == 'harness-error':
         res['tail'] = out.splitlines()[-6:]
     if not keep:
